@@ -23,7 +23,16 @@ namespace net
         else if (r == 2)
           cnt.inc("inconclusive.n2");
       }
-      if (on != "check")
+      bool root_dead = on != "check";
+      if (!root_dead)
+      { // check() answers false both when the assumptions are refuted and when, after learning from them,
+        // the clauses themselves turn out inconsistent at root level; in the latter case the network is spent
+        // (sat_core keeps no flag for it), so the history ends exactly as after any other root-level false.
+        int r0 = z.check_with(zdecisions());
+        if (r0 != 1)
+          root_dead = true;
+      }
+      if (root_dead)
       {
         dead = true;
         tr("network reported a root-level inconsistency; history ends");
